@@ -37,6 +37,7 @@ func runC20(r *Report, p *Program) {
 	c20R7(h)
 	bodyBypassRule(h, "R8", 1, func(t *types.Named) bool { return t.Obj().Name() == "ResponseRecorder" })
 	c20R9(h)
+	c20R10(h)
 }
 
 func c20R1(h H) {
